@@ -33,6 +33,8 @@ struct gm_spec {
 	uint8_t send_prob;      /* probability (/256) that a SEND action fires */
 	uint8_t dest_mode;      /* 0 uniform, 1 ring neighbour, 2 hot spot (fan-in to LP 0), 3 self, 4 drip (rare sends to LP 0) */
 	uint8_t payload_mode;   /* 0 none, 1 small (<=32), 2 mixed incl. >32, 3 big (4000) occasionally */
+	uint8_t chain_len;      /* length of zero-delay chains (0: only the short ttl<=3 chains encoded in the type) */
+	uint8_t chain_start;    /* probability (/256) that a heartbeat starts a zero-delay chain of its own */
 	uint8_t hb_scale;       /* heartbeat period multiplier: large values give sparse, well separated activity */
 	uint8_t n_rules;
 	struct gm_rule rules[GM_MAXRULES];
